@@ -1,7 +1,10 @@
 package c04
 
 import (
+	"bytes"
+	"compress/gzip"
 	"fmt"
+	"io"
 	"math"
 	"os"
 	"path/filepath"
@@ -33,14 +36,16 @@ type cliCase struct {
 	Cmd       string     `json:"cmd"`
 	Ali       gen.Ali    `json:"ali"`
 	Others    []gen.Ali  `json:"others"`
-	More      []gen.Ali  `json:"more"`         // further alignments of the input file (then a Phylip stream)
-	Layout    int        `json:"layout"`       // Phylip output: 0 blocks of 10 in lines of 60, 1 --one-line, 2 --no-block, 3 both
-	Fasta     cli.Layout `json:"fasta_layout"` // presentation of the FASTA input file(s)
-	OutFile   int        `json:"out_file"`     // 0 standard output; -o <file>: 1 a new file, 2 an existing (stale) file
-	LogFile   int        `json:"log_file"`     // concat -l: 0 none, 1 a new file, 2 an existing file
-	StaleOut  bool       `json:"stale_out"`    // split / extract: the output files exist already
-	GFF       bool       `json:"gff"`          // extract: the blocks are given as a GFF3 annotation (--gff)
-	Translate bool       `json:"translate"`    // extract --translate 0 (standard code)
+	More      []gen.Ali  `json:"more"`          // further alignments of the input file (then a Phylip stream)
+	Layout    int        `json:"layout"`        // Phylip output: 0 blocks of 10 in lines of 60, 1 --one-line, 2 --no-block, 3 both
+	Fasta     cli.Layout `json:"fasta_layout"`  // presentation of the FASTA input file(s)
+	OutFile   int        `json:"out_file"`      // 0 standard output; -o <file>: 1 a new file, 2 an existing (stale) file
+	LogFile   int        `json:"log_file"`      // concat -l: 0 none, 1 a new file, 2 an existing file
+	StaleOut  bool       `json:"stale_out"`     // split / extract: the output files exist already
+	GFF       bool       `json:"gff"`           // extract: the blocks are given as a GFF3 annotation (--gff)
+	Translate bool       `json:"translate"`     // extract --translate 0 (standard code)
+	Omit      bool       `json:"omit_defaults"` // flags whose value is the documented default are left out (subseq -s 0 -l 10, trim seq -n 1)
+	NoInput   bool       `json:"no_input"`      // concat -i none: every alignment comes from the file arguments
 	Start     int        `json:"start"`
 	Len       int        `json:"len"`
 	Step      int        `json:"step"`
@@ -277,12 +282,28 @@ func genCLI(t *rapid.T, cmds []string) cliCase {
 		c.Fasta = cli.DrawLayout(t)
 	}
 	if uni(t, 3, "outfile") == 0 {
-		c.OutFile = 1 + uni(t, 2, "stale")
+		c.OutFile = 1 + uni(t, 3, "stale") // 1 new file, 2 existing file, 3 new compressed file (.gz)
 	}
 	if c.Cmd == "concat" && uni(t, 2, "log") == 0 {
-		c.LogFile = 1 + uni(t, 2, "stalelog")
+		c.LogFile = 1 + uni(t, 3, "stalelog")
 	}
 	c.StaleOut = uni(t, 3, "staleout") == 0
+	// documented defaults: the flag is left out when its value is the default
+	if uni(t, 4, "omit") == 0 {
+		c.Omit = true
+		switch c.Cmd {
+		case "trim":
+			c.Trim = 1
+		case "subseq":
+			if uni(t, 2, "deflen") == 0 {
+				c.Len = 10
+			}
+			if uni(t, 2, "defstart") == 0 {
+				c.Start = 0
+			}
+		}
+	}
+	c.NoInput = c.Cmd == "concat" && uni(t, 3, "noinput") == 0
 	c.GFF = (c.Cmd == "extract" || c.Cmd == "extract-ref") && uni(t, 3, "gff") == 0
 	return c
 }
@@ -485,7 +506,16 @@ func checkCLI(dir string, c cliCase) (o pbt.Outcome, err error) {
 		l := len(rows[0].Seq)
 		switch c.Cmd {
 		case "subseq":
-			args = []string{"subseq", "-i", in, "-s", fmt.Sprint(c.Start), "-l", fmt.Sprint(c.Len)}
+			args = []string{"subseq", "-i", in}
+			if !(c.Omit && c.Start == 0) {
+				args = append(args, "-s", fmt.Sprint(c.Start))
+			}
+			if !(c.Omit && c.Len == 10) {
+				args = append(args, "-l", fmt.Sprint(c.Len))
+			}
+			if c.Omit && (c.Start == 0 || c.Len == 10) {
+				o.Class("subseq:default of -s / -l left out")
+			}
 			if c.Reverse {
 				args = append(args, "-r")
 			}
@@ -815,7 +845,12 @@ func checkCLI(dir string, c cliCase) (o pbt.Outcome, err error) {
 			}
 			o.NonTrivial = multi || gapIn || exp.Err
 		case "trim":
-			args = []string{"trim", "seq", "-i", in, "-n", fmt.Sprint(c.Trim)}
+			args = []string{"trim", "seq", "-i", in}
+			if c.Omit && c.Trim == 1 {
+				o.Class("trim:default of -n left out")
+			} else {
+				args = append(args, "-n", fmt.Sprint(c.Trim))
+			}
 			if c.FromStart {
 				args = append(args, "-s")
 			}
@@ -834,6 +869,11 @@ func checkCLI(dir string, c cliCase) (o pbt.Outcome, err error) {
 		case "concat":
 			// every alignment of the input file, then every further file, is appended to the first one
 			args = []string{"concat", "--alphabet", c.Ali.Alphabet, "-i", in}
+			if c.NoInput {
+				// "It is possible to give only otherfiles, without -i, by giving -i none"
+				args = []string{"concat", "--alphabet", c.Ali.Alphabet, "-i", "none", in}
+				o.Class("concat:-i none")
+			}
 			want := rows
 			rest := []gen.Ali{}
 			rest = append(rest, c.More...)
@@ -943,10 +983,14 @@ func checkCLI(dir string, c cliCase) (o pbt.Outcome, err error) {
 	if c.OutFile > 0 && exp.Files == nil && outDir == "" && !severalFiles {
 		outPath = cli.TempFile(dir, ".out", "")
 		os.Remove(outPath)
-		if c.OutFile == 2 {
+		switch c.OutFile {
+		case 2:
 			cli.StaleFile(outPath, 40)
 			o.Class("output:-o existing file")
-		} else {
+		case 3:
+			outPath += ".gz"
+			o.Class("output:-o compressed file (.gz)")
+		default:
 			o.Class("output:-o new file")
 		}
 		args = append(args, "-o", outPath)
@@ -957,6 +1001,9 @@ func checkCLI(dir string, c cliCase) (o pbt.Outcome, err error) {
 		os.Remove(logPath)
 		if c.LogFile == 2 {
 			cli.StaleFile(logPath, 40)
+		}
+		if c.LogFile == 3 {
+			logPath += ".gz"
 		}
 		args = append(args, "-l", logPath)
 		o.Class("output:concat log file")
@@ -975,9 +1022,9 @@ func checkCLI(dir string, c cliCase) (o pbt.Outcome, err error) {
 	defer os.Remove(in)
 	stdout := r.Stdout
 	if outPath != "" && r.Exit == 0 {
-		b, e := os.ReadFile(outPath)
+		b, e := readMaybeGz(outPath)
 		if e != nil {
-			return o, fmt.Errorf("goalign %s: the output file was not written: %v", strings.Join(args, " "), e)
+			return o, fmt.Errorf("goalign %s: the output file was not written (or is not a complete gzip stream): %v", strings.Join(args, " "), e)
 		}
 		if strings.TrimSpace(r.Stdout) != "" {
 			return o, fmt.Errorf("goalign %s: output requested in a file, but standard output holds\n%s", strings.Join(args, " "), firstLines(r.Stdout, 6))
@@ -1111,9 +1158,9 @@ func checkCLI(dir string, c cliCase) (o pbt.Outcome, err error) {
 	}
 	if logPath != "" {
 		// start (0-based inclusive), end (exclusive) and file of every input alignment, in order
-		b, e := os.ReadFile(logPath)
+		b, e := readMaybeGz(logPath)
 		if e != nil {
-			return o, fmt.Errorf("%s: the log file was not written: %v", show(), e)
+			return o, fmt.Errorf("%s: the log file was not written (or is not a complete gzip stream): %v", show(), e)
 		}
 		var want []string
 		at := 0
@@ -1155,6 +1202,19 @@ func translateStd(nt string) string {
 		out = append(out, aas[k])
 	}
 	return string(out)
+}
+
+// readMaybeGz reads a file, through gzip when its name ends in .gz (a truncated stream is an error)
+func readMaybeGz(path string) ([]byte, error) {
+	b, err := os.ReadFile(path)
+	if err != nil || !strings.HasSuffix(path, ".gz") {
+		return b, err
+	}
+	zr, err := gzip.NewReader(bytes.NewReader(b))
+	if err != nil {
+		return nil, err
+	}
+	return io.ReadAll(zr)
 }
 
 func mustFailAny(exps []expect) bool {
